@@ -51,6 +51,26 @@ func renderWith(f *recipe.File, reuse bool) string {
 			defer func() { recipe.CallerTable = nil; recipe.NoCloneForm = false }()
 			if reuse {
 				recipe.CallerTable = callerTable
+				// the caller's table object has been to another File before, holding the same paths under other
+				// names (same object, same size)
+				for i := range f.Ops {
+					if f.Ops[i].Op == "ImportNames" {
+						for k := range callerTable {
+							delete(callerTable, k)
+						}
+						for p := range f.Ops[i].Map {
+							callerTable[p] = "zzother"
+						}
+						sib := jen.NewFile("sibling")
+						sib.ImportNames(callerTable)
+						for p := range f.Ops[i].Map {
+							sib.Var().Id("_").Op("=").Qual(p, "X")
+							break
+						}
+						_ = sib.Render(io.Discard)
+						break
+					}
+				}
 			}
 			// the same construction through slightly different, equivalent call sequences: every other
 			// build continues some call chains on a clone (see recipe.Builder.Stmt), the others do not
@@ -265,8 +285,11 @@ func mapRich(t *rapid.T) *recipe.File {
 			for j := 0; j < nf; j++ {
 				var tag []recipe.TagKV
 				nk := rapid.IntRange(2, 8).Draw(t, "ntagkeys")
+				if rapid.IntRange(0, 3).Draw(t, "manytagkeys") == 0 {
+					nk = rapid.IntRange(9, 40).Draw(t, "ntagkeysmany")
+				}
 				for k := 0; k < nk; k++ {
-					key := fmt.Sprintf("k%d", (k*7+j)%11)
+					key := fmt.Sprintf("k%d", (k*7+j)%53)
 					if rapid.IntRange(0, 2).Draw(t, "casekey") == 0 {
 						key = rapid.SampledFrom([]string{"json", "JSON", "Json", "db", "DB", "Db", "xml", "XML"}).Draw(t, "casekeyname")
 					}
@@ -393,7 +416,7 @@ func TestC07(t *testing.T) {
 	if r.Thorough() {
 		rebuilds, procs = 40, 8
 	}
-	r.Rule(fmt.Sprintf("rapid-generated recipes rich in maps (Dicts of 2..12 pairs nested up to 3 deep with literal / identifier / call / qualified keys and values over paths competing for one name, Tags of 2..8 keys, ImportNames tables of 5..200 entries, import sets of 2..15 paths, random File settings) plus cgo Files with C next to 0..2 other imports, random DSL trees and plausible programs; batches of 3..8 recipes with literal tables built and rendered at the same time on goroutines of their own, compared with the same construction done alone; each recipe is built from scratch and rendered %d times in one process and, for one recipe in 20, in %d separate processes; all results (bytes or error text) must be equal; non-trivial = a map with >= 2 entries or >= 2 imports; distinct by recipe", rebuilds, procs))
+	r.Rule(fmt.Sprintf("rapid-generated recipes rich in maps (Dicts of 2..12 pairs nested up to 3 deep with literal / identifier / call / qualified keys and values over paths competing for one name, Tags of 2..40 keys, ImportNames tables of 5..200 entries, import sets of 2..15 paths, random File settings) plus cgo Files with C next to 0..2 other imports, random DSL trees and plausible programs; batches of 3..8 recipes with literal tables built and rendered at the same time on goroutines of their own, compared with the same construction done alone; each recipe is built from scratch and rendered %d times in one process and, for one recipe in 20, in %d separate processes; all results (bytes or error text) must be equal; non-trivial = a map with >= 2 entries or >= 2 imports; distinct by recipe", rebuilds, procs))
 	r.Assume("map iteration orders are sampled by repetition, not enumerated: the Go runtime does not let a program choose them")
 	n := 0
 	mk := func(f *recipe.File, rt *rapid.T) Case {
